@@ -546,6 +546,43 @@ func (fr *Frame) invNames(li *loopInfo, st *State, phi map[*ssa.Phi]Value) map[s
 		}
 		names[p.Name()] = SVal{V: v, T: p.Type()}
 	}
+	// a `for _, x := range xs` loop rewritten as `for i := 0; i < len(xs); i++` has no rangeindex; the number of
+	// completed iterations is i, so rangeindex (index of the last completed element) is i - 1
+	if _, have := names["rangeindex"]; !have {
+		var cand []Term
+		for _, ins := range li.header.Instrs {
+			p, ok := ins.(*ssa.Phi)
+			if !ok {
+				break
+			}
+			if _, _, isInt := intBits(p.Type()); !isInt || len(p.Edges) != 2 {
+				continue
+			}
+			okInit, okStep := false, false
+			for i, e := range p.Edges {
+				if isBackEdge(li.header.Preds[i], li.header) {
+					if bo, ok := e.(*ssa.BinOp); ok && bo.Op == token.ADD && bo.X == ssa.Value(p) {
+						if c, ok := bo.Y.(*ssa.Const); ok && c.Value != nil && c.Int64() == 1 {
+							okStep = true
+						}
+					}
+				} else if c, ok := e.(*ssa.Const); ok && c.Value != nil && c.Int64() == 0 {
+					okInit = true
+				}
+			}
+			if okInit && okStep {
+				if sv, ok := names[p.Name()]; ok {
+					if sc, ok := sv.V.(Scalar); ok {
+						cand = append(cand, sc.T)
+					}
+				}
+			}
+		}
+		if len(cand) == 1 {
+			names["rangeindex"] = SVal{V: Scalar{Sub(cand[0], IntLit(1))}, T: types.Typ[types.Int]}
+		}
+	}
+	u.applyAliases(names) // after the loop-carried values: an aliased name must see the phi value too
 	return names
 }
 
@@ -727,7 +764,23 @@ func (fr *Frame) buildCandidates(li *loopInfo, phiEntry map[*ssa.Phi]Value) []*C
 								k, derived = c.Int64(), true
 							}
 						}
-						if !derived || !invariantVal(y) {
+						// the bound may also be len(s) of a loop-invariant slice, recomputed in the header
+						var lenArg ssa.Value
+						var lenField *ssa.FieldAddr // len(p.f) with p loop invariant: the field is read from the state at the cut point
+						if cl, ok := y.(*ssa.Call); ok {
+							if bi, ok := cl.Call.Value.(*ssa.Builtin); ok && bi.Name() == "len" && len(cl.Call.Args) == 1 {
+								if _, isSlice := cl.Call.Args[0].Type().Underlying().(*types.Slice); isSlice {
+									if invariantVal(cl.Call.Args[0]) {
+										lenArg = cl.Call.Args[0]
+									} else if ld, ok := cl.Call.Args[0].(*ssa.UnOp); ok && ld.Op == token.MUL {
+										if fa, ok := ld.X.(*ssa.FieldAddr); ok && invariantVal(fa.X) {
+											lenArg, lenField = cl.Call.Args[0], fa
+										}
+									}
+								}
+							}
+						}
+						if !derived || (!invariantVal(y) && lenArg == nil) {
 							continue
 						}
 						yv := y
@@ -748,7 +801,23 @@ func (fr *Frame) buildCandidates(li *loopInfo, phiEntry map[*ssa.Phi]Value) []*C
 								}
 								add(fmt.Sprintf("auto: %s+%d %s %s", phiLabel(p), kk, rel, yv.Name()), true, func(fr *Frame, st *State, phi map[*ssa.Phi]Value, hyp bool) (Term, error) {
 									t, ok := phiVal(fr, p, phi)
-									b0, ok2 := fr.val(yv).(Scalar)
+									var b0 Scalar
+									ok2 := false
+									if lenField != nil {
+										if bp, isP := fr.val(lenField.X).(PtrV); isP {
+											q := bp
+											q.Path = append(append([]int{}, bp.Path...), lenField.Field)
+											if sv, isS := fr.u.loadNoAssume(st, q).(SliceV); isS {
+												b0, ok2 = Scalar{sv.Len}, true
+											}
+										}
+									} else if lenArg != nil {
+										if sv, isS := fr.val(lenArg).(SliceV); isS {
+											b0, ok2 = Scalar{sv.Len}, true
+										}
+									} else {
+										b0, ok2 = fr.val(yv).(Scalar)
+									}
 									if !ok || !ok2 {
 										return Term{}, fmt.Errorf("n/a")
 									}
